@@ -1,11 +1,11 @@
-INIT ObsInitNoDup
+INIT ObsInit
 NEXT Next
 CONSTANTS Configs = {}
   CountBasedCheck = FALSE
   SkipEpochWithoutRow = FALSE
   LoadEveryEngine = FALSE
-  LoadOnlyOwnTargets = TRUE
-  CrashOnDuplicate = FALSE
+  LoadOnlyOwnTargets = FALSE
+  CrashOnDuplicate = TRUE
   KeepDuplicates = FALSE
   CreateMissingTables = FALSE
 INVARIANT ImportFaithful
